@@ -256,6 +256,10 @@ class CounterToken(Token, FileSystemEventHandler):
             if tf is None:
                 try:
                     tf = TokenFile(path)
+                except FileNotFoundError:
+                    # Removed in the meantime by a thread watching its job
+                    # (these threads do not take the IPC lock)
+                    continue
                 except ValueError:
                     # Token files are only written with the IPC lock (that we
                     # hold): an incomplete file was left by a process that
